@@ -157,6 +157,20 @@ Fixpoint dec_loop (fuel : nat) (c : rcfg) (ms : list rmodel) (snaps : list snap)
             opt_app [0] (dec_loop fuel' c ms snaps r d' tr' ok')
         | None => opt_app [ERR_SEEK] (dec_loop fuel' c ms snaps r d tr ok)
         end
+    | 27 :: i :: r =>
+        let '(pos, lo, ra, st) := nth (Z.to_nat i) snaps (0%N, 0%N, 0%N, None) in
+        if rstate_ok c ra then
+          match rdec_seek c pos lo ra d with
+          | Some d' =>
+              let tr' := match st with
+                         | Some s0 => if window_ok c (d_buf d) s0 then Some s0 else None
+                         | None => None
+                         end in
+              let ok' := match tr' with Some s0 => ok && rdecb c (d_buf d) d' s0 | None => ok end in
+              opt_app [0] (dec_loop fuel' c ms snaps r d' tr' ok')
+          | None => opt_app [ERR_SEEK] (dec_loop fuel' c ms snaps r d tr ok)
+          end
+        else opt_app [ERR_STATE] (dec_loop fuel' c ms snaps r d tr ok)
     | 23 :: r => opt_app (dec_raw d) (dec_loop fuel' c ms snaps r d tr ok)
     | 24 :: pos :: lo :: ra :: r =>
         if rstate_ok c (zN ra) then
@@ -236,6 +250,30 @@ Fixpoint enc_loop (fuel : nat) (c : rcfg) (ms : list rmodel) (snaps : list snap)
         | _ => None
         end
     | 9 :: r =>
+        let '(sfx, r') := read_list r in
+        match renc_into_compressed c e with
+        | ROk ws =>
+            let t := ws ++ map zN sfx in
+            let d := rdec_from_compressed c t in
+            let tr0 := match tr with Some _ => Some (spec_init c) | None => None end in
+            let ok' := ok && chk_seal c ws tr nsym &&
+                       match tr0 with Some s0 => rdecb c t d s0 | None => true end in
+            opt_app (out_words ws) (dec_loop fuel' c ms snaps r' d tr0 ok')
+        | _ => None
+        end
+    | 11 :: r =>
+        let '(sfx, r') := read_list r in
+        match renc_into_compressed c e with
+        | ROk ws =>
+            let t := ws ++ map zN sfx in
+            let d := rdec_from_compressed c t in
+            let tr0 := match tr with Some _ => Some (spec_init c) | None => None end in
+            let ok' := ok && chk_seal c ws tr nsym &&
+                       match tr0 with Some s0 => rdecb c t d s0 | None => true end in
+            opt_app (out_words ws) (dec_loop fuel' c ms snaps r' d tr0 ok')
+        | _ => None
+        end
+    | 12 :: r =>
         let '(sfx, r') := read_list r in
         match renc_into_compressed c e with
         | ROk ws =>
